@@ -172,7 +172,10 @@ def run_case(arg):
             res["json_error"] = str(e) + err[:200]
         cands = os.path.join(d, "cands.txt")
         rc, out, err = just("--shell", "sh", "--shell-arg", "-cu", "--choose", "--chooser", "cat > %s; echo noop" % cands)
-        res["choose"] = sorted(open(cands).read().split("\n")[:-1]) if os.path.exists(cands) else ["ERROR " + err[:200]]
+        res["choose_raw"] = open(cands).read().split("\n")[:-1] if os.path.exists(cands) else ["ERROR " + err[:200]]
+        res["choose"] = sorted(res["choose_raw"])
+        rc, out, err = just("--list", "--list-submodules", "--unsorted")
+        res["list_submodules_unsorted_modules"] = re.findall(r"^ +([A-Za-z_][A-Za-z0-9_-]*):$", out, re.M)
         # --show NAME vs just NAME, for every recipe and alias name of the root
         res["targets"] = {}
         for nm in [r["name"] for r in root["recipes"]] + [a["name"] for a in root["aliases"]]:
@@ -269,6 +272,20 @@ def run(report):
             bad = ("choose", r["choose"], want["choose"])
         elif sorted(r["list_modules"]) != sorted(s["name"] for s in root["subs"]):
             bad = ("list-modules", r["list_modules"], [s["name"] for s in root["subs"]])
+        if not bad:
+            # the views agree on the ORDER too: the chooser gets the summary's order, and the modules come in the same
+            # order in the unsorted summary and in the unsorted list
+            chosen = set(r["choose_raw"])
+            from_summary = [x.replace("::", " ") for x in r["summary"] if x.replace("::", " ") in chosen]
+            mods_summary = []
+            for x in r["summary_unsorted"]:
+                if "::" in x and x.split("::")[0] not in mods_summary:
+                    mods_summary.append(x.split("::")[0])
+            mods_list = [m_ for m_ in r["list_submodules_unsorted_modules"] if m_ in mods_summary]
+            if r["choose_raw"] != from_summary:
+                bad = ("choose-order", r["choose_raw"], from_summary)
+            elif mods_list != mods_summary:
+                bad = ("module-order-unsorted", mods_summary, mods_list)
         if bad:
             report.failure("c17-view:%s" % bad[0], "%s lists %s, documented %s" % bad, replay)
             continue
